@@ -136,6 +136,14 @@ claim("C16", "seqbfs",
       "one failure per emit; depth 3 (4 thorough); for a failure carried by an awaitable (partition) sibling branches may or may not see the element - both are accepted, as the statement only constrains the failing node",
       "DESIGN.md §3 C16")
 
+claim("C19", "config",
+      "exhaustive enumeration of construction configurations against a unification reference for (loop, mode) per connected component",
+      "Full product of first node (plain Stream + all 12 Source subclasses) x asynchronous {None,True,False} x loop {none,current,other} x 0-2 fluent nodes (plain / each loop-requiring type, explicit arguments none / agreeing / conflicting) "
+      "x joins (union, zip, combine_latest, zip_latest) with a second pipeline incl. explicit arguments on the join and a loop-requiring node added afterwards to the joined-in pipeline; "
+      "oracle: inherited (loop, mode), ValueError exactly on explicit conflicts, asynchronous=True => IOLoop.current() and no thread, blocking loop-needing node => the one shared background loop (one thread), no component with two loops or modes.",
+      "event loops are inert stand-ins behind the streamz.core.IOLoop / threading seams (binding and thread creation observed, callbacks not run); mode compared by truthiness; joining two already conflicting pipelines without an explicit contradicting request is not generated",
+      "DESIGN.md §3 C19")
+
 ALL = ["C%02d" % i for i in range(1, 21)]
 
 
